@@ -35,7 +35,7 @@ pub enum Source<'a> {
 
 /// the C18 battery: element, tuple, path, join, filter, aggregate, belief, order/limit patterns.
 /// `sorted`: the answer is a set (no ORDER BY), compared after sorting its rows.
-pub const BATTERY: [(&str, &str, &str, bool); 16] = [
+pub const BATTERY: [(&str, &str, &str, bool); 18] = [
     ("concept-default", "FIND(?e) WHERE { ?e CONCEPT {} }", "", true),
     ("concept-archived", "FIND(?e.id, ?e.name, ?e._system.version) WHERE { ?e CONCEPT {state: \"archived\"} }", "", true),
     ("concept-tombstoned", "FIND(?e.id, ?e._system.version) WHERE { ?e CONCEPT {state: \"tombstoned\"} }", "", true),
@@ -54,6 +54,10 @@ pub const BATTERY: [(&str, &str, &str, bool); 16] = [
     ("concept-version-values", "FIND(?c.id, ?c._system.version, ?c._system.state, ?c.name, ?c.attributes.note, ?c.facets[\"MnemonicState\"].salience) WHERE { ?c CONCEPT {state: ?s} }", "", true),
     ("concept-facet-filter", "FIND(?c.id, ?c._system.version, ?c.facets[\"MnemonicState\"].salience) WHERE { ?c CONCEPT {} FILTER(?c.facets[\"MnemonicState\"].salience > 0.4) }", "", true),
     ("order-limit", "FIND(?c.id, ?c.name) WHERE { ?c CONCEPT {} }", " ORDER BY ?c.id LIMIT 3", false),
+    // answers that depend on the Schema Environment of the coordinate: a local type name and a local
+    // predicate name that only the second environment knows (an error under the first one)
+    ("env-type-name", "FIND(?c.id, ?c.name) WHERE { ?c CONCEPT {type: \"Gadget\"} }", "", true),
+    ("env-predicate-name", "FIND(?p.id) WHERE { ?p PROPOSITION (?s, \"likes\", ?o) }", "", true),
 ];
 /// the pattern that also reaches `pending` shell rows (root cause F-C17-1); reported under its own key
 pub const ANYSTATE: (&str, &str) = ("concept-anystate", "FIND(?e.id, ?e._system.version) WHERE { ?e CONCEPT {state: ?s} }");
@@ -85,7 +89,7 @@ fn asof_key(form: &str, i: usize, observed: &str) -> String {
 
 /// battery entries whose rows are self-contained (each row spells the ids it depends on), so that
 /// rows mentioning an element a later committed PURGE destroyed can be set aside on both sides
-const SCRUBBABLE: [usize; 11] = [0, 1, 2, 3, 4, 6, 8, 9, 10, 13, 14];
+const SCRUBBABLE: [usize; 12] = [0, 1, 2, 3, 4, 6, 8, 9, 10, 13, 14, 16];
 
 /// drops the rows that mention a purged element
 fn scrub(text: &str, purged: &[String]) -> String {
@@ -116,6 +120,8 @@ struct Recorded {
     at: Option<String>,
     answers: Vec<String>,
     anystate: String,
+    /// the Schema Environment version in force when the coordinate was the present
+    env: String,
 }
 
 async fn battery(w: &World, suffix: &str) -> (Vec<String>, String) {
@@ -140,22 +146,36 @@ pub async fn run_case(name: &str, cfg: Cfg, mut model: Option<&mut ModelProc>, m
     let mut step = 0usize;
     let mut canon = String::new();
     let mut model_alive = model.is_some();
+    let mut env_b = false;
+    let mut activations = 0;
     loop {
+        let mut activate: Option<u8> = None;
         let st = match &mut src {
             Source::Gen { rng, len } => {
                 if step >= *len { break; }
-                gen_stmt(rng, &World::known(&pre))
+                // 1–2 schema activations per history, after at least one AS OF replay happened
+                if step >= 2 && activations < 2 && rng.chance(1, 5) {
+                    activate = Some(if env_b { 1 } else { 2 });
+                    Stmt { dry: false, clauses: vec![] }
+                } else {
+                    let mut k = World::known(&pre);
+                    k.env_b = env_b;
+                    gen_stmt(rng, &k)
+                }
             }
             Source::Ops(ops) => {
                 if step >= ops.len() { break; }
-                match Stmt::parse(&ops[step]) {
+                if let Some(n) = ops[step].strip_prefix("activate ") {
+                    activate = Some(if n.trim() == "2" { 2 } else { 1 });
+                }
+                match if activate.is_some() { Some(Stmt { dry: false, clauses: vec![] }) } else { Stmt::parse(&ops[step]) } {
                     Some(s) => s,
                     None => { step += 1; res.hits.push("op:unparsable-line".into()); continue; }
                 }
             }
         };
         step += 1;
-        let line = st.line(step as u64);
+        let line = match activate { Some(n) => format!("activate {n}"), None => st.line(step as u64) };
         res.ops.push(line.clone());
         for c in &st.clauses {
             res.hits.push(format!("clause:{}", c.shape()));
@@ -168,7 +188,17 @@ pub async fn run_case(name: &str, cfg: Cfg, mut model: Option<&mut ModelProc>, m
         if st.dry { res.hits.push("stmt:dry".into()); }
 
         let purge_targets: std::collections::BTreeSet<String> = st.clauses.iter().filter_map(|c| if let Clause::Pg { t: Ref::Id(i), .. } = c { Some(i.clone()) } else { None }).collect();
-        let out = w.exec(&st).await;
+        let out = match activate {
+            Some(n) => {
+                activations += 1;
+                res.hits.push("stmt:schema-activation".into());
+                match w.activate(n).await {
+                    Ok(version) => { env_b = n == 2; Outcome::Activated { seq: w.space_seq().await, version } }
+                    Err(e) => Outcome::Odd(format!("activation failed: {e}")),
+                }
+            }
+            None => w.exec(&st).await,
+        };
         let post = w.raw_dump().await;
         match &out {
             Outcome::Parse(_) => res.hits.push("out:parse-rejected".into()),
@@ -179,6 +209,7 @@ pub async fn run_case(name: &str, cfg: Cfg, mut model: Option<&mut ModelProc>, m
                 if !changes.is_empty() { res.nontrivial = true; }
                 if changes.iter().any(|c| c.1 != "create") { res.hits.push("out:changed-existing".into()); }
             }
+            Outcome::Activated { .. } => res.hits.push("out:activated".into()),
             Outcome::Odd(_) => res.hits.push("out:odd".into()),
         }
         canon.push_str(&out.canon());
@@ -190,6 +221,11 @@ pub async fn run_case(name: &str, cfg: Cfg, mut model: Option<&mut ModelProc>, m
             match &out {
                 Outcome::Done { .. } => res.failures.extend(oracle::check_commit(&out, &pre, &post, &purge_targets)),
                 Outcome::Odd(s) => res.failures.push(Failure { key: "odd-response".into(), what: "a successful response without a receipt".into(), expected: "receipt".into(), observed: s.clone() }),
+                Outcome::Activated { seq, version } => {
+                    if post.elems != pre.elems || post.vlog != pre.vlog || post.journal != pre.journal || *seq != pre.seq + 1 || *version != pre.env + 1 || post.env != *version {
+                        res.failures.push(Failure { key: "activation-touched-cognition".into(), what: "a schema activation takes one sequence and one environment version and touches nothing else".into(), expected: format!("seq {} env {}", pre.seq + 1, pre.env + 1), observed: format!("seq {seq} env {version} (stored {})", post.env) });
+                    }
+                }
                 _ => {
                     let fs = oracle::check_noop(&out, &pre_q, &post_q, &pre, &post);
                     if post.elems.len() != pre.elems.len() {
@@ -231,6 +267,13 @@ pub async fn run_case(name: &str, cfg: Cfg, mut model: Option<&mut ModelProc>, m
                 }
                 if same_answer(usize::MAX, &rec.anystate, &any, &purged_since) == Some(false) {
                     res.failures.push(Failure { key: "asof-omits-pending-shell-rows".into(), what: format!("`{} AS OF SEQ {}` differs from the live answer at {}", ANYSTATE.1, rec.seq, rec.seq), expected: rec.anystate.clone(), observed: any });
+                }
+                // the Schema Environment of that point
+                let e1 = w.ask_member(&format!("DESCRIBE SCHEMA ENVIRONMENT AS OF SEQ {}", rec.seq), "version").await;
+                let e2 = w.ask_member(&format!("SNAPSHOT AS OF SEQ {}", rec.seq), "schema_environment_version").await;
+                res.replays += 2;
+                if e1 != rec.env || e2 != rec.env {
+                    res.failures.push(Failure { key: "asof-schema-environment-version-differs".into(), what: format!("the Schema Environment version reported AS OF SEQ {} is not the one in force when {} was the present", rec.seq, rec.seq), expected: rec.env.clone(), observed: format!("DESCRIBE SCHEMA ENVIRONMENT AS OF: {e1}; SNAPSHOT AS OF: {e2}") });
                 }
                 if let Some(tx) = &rec.tx_id {
                     let (now, _) = battery(&w, &format!(" AS OF TX \"{tx}\"")).await;
@@ -283,7 +326,11 @@ pub async fn run_case(name: &str, cfg: Cfg, mut model: Option<&mut ModelProc>, m
                     if i == 14 && a.contains("0.") { res.hits.push("battery:facet-value-read".into()); }
                 }
                 let (tx_id, at) = match &out { Outcome::Done { tx_id, committed_at, .. } => (Some(tx_id.clone()), Some(committed_at.clone())), _ => (None, None) };
-                recorded.push(Recorded { seq: post.seq, tx_id, at, answers, anystate });
+                let env = w.ask_member("DESCRIBE SCHEMA ENVIRONMENT", "version").await;
+                if env != post.env.to_string() {
+                    res.failures.push(Failure { key: "environment-version-mismatch".into(), what: "DESCRIBE SCHEMA ENVIRONMENT disagrees with the Space row".into(), expected: post.env.to_string(), observed: env.clone() });
+                }
+                recorded.push(Recorded { seq: post.seq, tx_id, at, answers, anystate, env });
                 res.hits.push("asof:coordinate-recorded".into());
             }
         }
@@ -291,7 +338,7 @@ pub async fn run_case(name: &str, cfg: Cfg, mut model: Option<&mut ModelProc>, m
         // ---------------- correspondence with the Lean model
         if model_alive && !matches!(out, Outcome::Parse(_)) {
             let m = model.as_deref_mut().unwrap();
-            let mo = m.ask(&line);
+            let mo = m.ask(if activate.is_some() { "activate" } else { &line });
             let io = out.canon();
             res.compared += 1;
             if mo != io {
@@ -307,6 +354,14 @@ pub async fn run_case(name: &str, cfg: Cfg, mut model: Option<&mut ModelProc>, m
                 } else if cfg.history {
                     // the model's reconstruction at every recorded coordinate vs the version log read through AS OF
                     for rec in &recorded {
+                        let me = m.ask(&format!("envat {}", rec.seq));
+                        res.compared += 1;
+                        let ie = w.ask_member(&format!("DESCRIBE SCHEMA ENVIRONMENT AS OF SEQ {}", rec.seq), "version").await;
+                        if me != ie {
+                            res.disagreement = Some((format!("Schema Environment version in force at {} (schema_version_at, after statement {step})", rec.seq), me, ie));
+                            model_alive = false;
+                            break;
+                        }
                         let ma = m.ask(&format!("asofv {}", rec.seq));
                         let ia = impl_asof(&w, rec.seq).await;
                         res.compared += 1;
